@@ -12,6 +12,7 @@ import (
 	"container/heap"
 	"fmt"
 	"hash/fnv"
+	"io"
 	"reflect"
 	"runtime"
 	"sync"
@@ -200,6 +201,9 @@ type Sched struct {
 	rr        int
 	lastSite  string
 	budgetHit bool
+	// Trace, when set, receives one line per scheduling point (debugging
+	// aid for the determinism self-test; never used in checks).
+	Trace io.Writer
 	// Misuse records harness-visible runtime errors of the simulated program
 	// (unlock of unlocked mutex, ...).
 	Misuse []string
@@ -534,6 +538,9 @@ func (s *Sched) overBudget() {
 func (s *Sched) point(site string) {
 	if s.killing {
 		runtime.Goexit()
+	}
+	if s.Trace != nil {
+		fmt.Fprintf(s.Trace, "%d %s\n", s.cur.ID, site)
 	}
 	if !s.step() {
 		s.overBudget()
